@@ -177,6 +177,8 @@ m("c15-equal-entrywise-no-nil-test",["C15"],"memio.go","\treturn reflect.DeepEqu
 m("c08-for-not-halted-refactor",["C08","C13","C12"],"cpu.go","\tfor {\n","\tfor !cpu.HALT {\n",edits=[{"file":"cpu.go","old":"\t\tif cpu.HALT {\n\t\t\tbreak\n\t\t}\n\t}\n\treturn nil","new":"\t}\n\treturn nil"}],expect="silent",note="HALT tested by the loop condition (after the entry reset): same stopping rule")
 m("c08-select-poll-refactor",["C08","C13","C10","C12"],"cpu.go",_RUN_HEAD,"\tdone := ctx.Done()\n\tvar _ = atomic.LoadInt32\n\n\tcpu.HALT = false\n\tfor {\n\t\tselect {\n\t\tcase <-done:\n\t\t\treturn ctx.Err()\n\t\tdefault:\n\t\t}",expect="silent",note="non-blocking poll of ctx.Done() before every Step, no goroutine")
 m("c08-for-not-halted-halt-first",["C08"],"cpu.go","\tfor {\n","\tfor !cpu.HALT {\n",edits=[{"file":"cpu.go","old":RUNLOOP,"new":"\t\tcpu.Step()\n\t\tif cpu.HALT {\n\t\t\tcontinue\n\t\t}\n\t\tif cpu.BreakPoints != nil {\n\t\t\tif _, ok := cpu.BreakPoints[cpu.PC]; ok {\n\t\t\t\treturn ErrBreakPoint\n\t\t\t}\n\t\t}\n"}],note="rotated loop in which an executed HALT wins over a breakpoint on its address")
+m("c12-halt-unless-request-pending",["C12","C08","C01"],"op_ctrl.go","\tcpu.HALT = true","\tcpu.HALT = cpu.Interrupt == nil",note="DI; HALT with a refused request pending never sets the indication: Run spins for ever")
+m("c18-resident-byte-below-bdos",["C18"],"internal/tinycpm/tinycpm.go","\tm.put(0xfe06, biosFE06...)","\tm.put(0xfe06, biosFE06...)\n\tm.put(0xfe05, 0xc9)",note="a resident byte just below the BDOS entry: a program that puts its stack at (0006h) overwrites it")
 # ---- C16
 m("c16-resetflag-and",["C16"],"flag.go","gpr.AF.Lo &= ^uint8(f)","gpr.AF.Lo &= uint8(f)")
 m("c16-getflag-all-bits",["C16"],"flag.go","return gpr.AF.Lo&uint8(f) != 0","return gpr.AF.Lo&uint8(f) == uint8(f)",note="differs only for combined masks")
